@@ -62,7 +62,9 @@ META = {
         "re-bound or concatenated onto it. "
         "R6 title extraction: for each heading node render_heading creates (section with a nodes.title child; rubric that is its own "
         "title) the resolver's title extraction has a case on the same subject (node itself / child of that class), and a search over "
-        "the children examines every child (no unconditional loop exit, no slice), also when it is a pre-filtering comprehension. "
+        "the children examines every child (no unconditional loop exit, no slice), also when it is a pre-filtering comprehension; where the "
+        "lookup tests for a definition list / field list, a walk over the CFG with the node's class as state (docutils content model: "
+        "definition_list -> definition_list_item -> term, field_list -> field -> field_name) reaches a title text with the term / field name. "
         "R7 unique slug keys: the key under which a heading enters the slug registry was tested absent from it after its last "
         "assignment on every path (a candidate computed in the return expression is untested). "
         "R8 monotone slug registry: between the per-parse reset and the export as document.myst_slugs the registry is never re-bound "
@@ -83,6 +85,7 @@ META = {
         "system_message is appended to the reference (known finding: it is not). "
         "R5 also: a name is not dropped from the registry by an attribute test that MyST's own id carriers satisfy (a reference with "
         "refuri that was given an id) unless the test is restricted to a node class they do not have. "
+        "R5 also: neither registry is written inside the loop that resolves the links (no memoising of slug hits as explicit targets). "
         "R5 also: a node class the reader drops from the registry (footnote) is not registered in the explicit-target name space, where a "
         "name clash makes docutils invalidate both names (known finding: footnote labels are). "
         "R12 eval-rst: the names of the scratch document render_restructuredtext parses into are re-registered with the real document "
@@ -1006,6 +1009,7 @@ class Resolver:
         if self.explicit is None:
             raise Unsupported(f"the explicit-name registry (a dict filled in a loop over the document's name tables and probed in the reference loop) was not recognised ({len(cands)} candidate stores)")
         # inside the loop the registries may only be used as `K in R`, `K not in R`, `R[K]` (anything else: unknown idiom)
+        self.registry_writes: list[tuple[str, ast.AST]] = []
         for n in self.body:
             if isinstance(n, ast.Name) and n.id in (self.explicit, self.slugs):
                 p = getattr(n, "_parent", None)
@@ -1015,6 +1019,12 @@ class Resolver:
                 if isinstance(p, ast.Attribute) and p.attr == "get" and p.value is n:
                     c = getattr(p, "_parent", None)
                     ok_use = isinstance(c, ast.Call) and c.func is p and not c.keywords and (len(c.args) == 1 or (len(c.args) == 2 and isinstance(c.args[1], ast.Constant) and c.args[1].value is None))
+                if isinstance(p, ast.Subscript) and p.value is n and isinstance(p.ctx, (ast.Store, ast.Del)):
+                    self.registry_writes.append((n.id, p))  # judged by R5: the registries are read-only while links are resolved
+                    continue
+                if isinstance(p, ast.Attribute) and p.value is n and p.attr in ("setdefault", "update", "pop", "popitem", "clear", "__setitem__"):
+                    self.registry_writes.append((n.id, getattr(p, "_parent", p)))
+                    continue
                 if not ok_use:
                     raise Unsupported(f"registry `{n.id}` is used as `{short(p, 50)}` in the reference loop (only `in` tests, subscripts and .get(key) are modelled)")
         # outcomes
@@ -2328,6 +2338,21 @@ def r5_explicit_only(corpus: Corpus, rep: Report, tier: str):
             "become '#'-targets and are searched before the slugs, so `#getting-started` hits the heading titled 'getting-started' instead of the one whose slug it is, "
             "and a link whose target does not exist (`<#my title>`) resolves silently",
         )
+    # the registries are complete before the first link is resolved and are only read afterwards
+    for regname, label in ((rs.explicit, "explicit"), (rs.slugs, "slug")):
+        kk = f"{fi.fq}|the {label} registry is not written while links are resolved"
+        ws = [w for r_, w in rs.registry_writes if r_ == regname]
+        if not ws:
+            rep.ok(R5, kk, m.site(rs.loop))
+        else:
+            rep.violation(
+                R5,
+                kk,
+                m.site(ws[0]),
+                f"`{short(getattr(ws[0], '_parent', ws[0]), 60)}` writes the {label} registry inside the loop that resolves the links: the registry then also holds entries that do not come from "
+                + ("an explicit name - e.g. a slug hit memoised under the normalised link text makes a later `[](#Setup Guide)` / `[](#SETUP-GUIDE)`, which is no slug and no explicit target, resolve silently "
+                   "as if it were an explicit target, and lets it take priority over real lookups" if label == "explicit" else "a heading, and which link sees them depends on the order of the links"),
+            )
     # reader: a name may not be dropped from the registry because its node has an attribute that MyST's own id carriers have
     # (nodes that copy_attributes gives an id to: a reference with a refuri that was written `[text](url){#id}`, ...)
     carriers: list[tuple[str, set[str], str]] = []
@@ -2575,6 +2600,84 @@ def _title_cases(f: FunctionInfo, node_vars: set[str], region: list[ast.AST]) ->
     return cases, problems
 
 
+# docutils content model (docutils.dtd, trusted): the first child of these elements
+FIRST_CHILD = {"definition_list": "definition_list_item", "definition_list_item": "term", "field_list": "field", "field": "field_name"}
+
+
+def _title_classes_reached(f: FunctionInfo, node_vars: set[str], start, start_cls: str) -> set[str]:
+    """Classes the target-node variable can have at a ``*astext(<node var>)`` call when the target node is a ``start_cls``:
+    a walk over the CFG with the node's class as the only state; class tests are evaluated exactly, every other test both ways."""
+    cfg = get_cfg(f)
+
+    def ev(e: ast.expr, cls: str | None):
+        """True / False / None (unknown)"""
+        if isinstance(e, ast.UnaryOp) and isinstance(e.op, ast.Not):
+            r = ev(e.operand, cls)
+            return None if r is None else not r
+        if isinstance(e, ast.BoolOp):
+            rs_ = [ev(v, cls) for v in e.values]
+            if isinstance(e.op, ast.And):
+                return False if any(r is False for r in rs_) else True if all(r is True for r in rs_) else None
+            return True if any(r is True for r in rs_) else False if all(r is False for r in rs_) else None
+        if cls is None:
+            return None
+        if isinstance(e, ast.Call) and dotted(e.func) == "isinstance" and len(e.args) == 2 and isinstance(e.args[0], ast.Name) and e.args[0].id in node_vars:
+            c = _node_classes(f, e.args[1])
+            if c is None:
+                return None
+            if c & {"Element", "Node", "TextElement", "Body", "General"}:
+                return None
+            return cls in c
+        if isinstance(e, ast.Compare) and len(e.ops) == 1 and isinstance(e.left, ast.Attribute) and e.left.attr == "tagname" and isinstance(e.left.value, ast.Name) and e.left.value.id in node_vars:
+            c = e.comparators[0]
+            if isinstance(c, ast.Constant) and isinstance(e.ops[0], (ast.Eq, ast.NotEq)):
+                return (cls == c.value) == isinstance(e.ops[0], ast.Eq)
+            return None
+        if isinstance(e, ast.Call) and isinstance(e.func, ast.Attribute) and e.func.attr == "startswith" and isinstance(e.func.value, ast.Attribute) and e.func.value.attr == "tagname" and e.args and isinstance(e.args[0], ast.Constant):
+            return cls.startswith(e.args[0].value)
+        return None
+
+    reached: set[str] = set()
+    seen = set()
+    work = [(start, start_cls)]
+    while work:
+        n, cls = work.pop()
+        key = (id(n) if not isinstance(n, tuple) else (n[0], id(n[1])), cls)
+        if key in seen or n in ("EXIT", "RAISE"):
+            continue
+        seen.add(key)
+        new_cls = cls
+        if isinstance(n, ast.AST):
+            roots = [n.test] if isinstance(n, (ast.If, ast.While)) else [n.iter] if isinstance(n, ast.For) else [] if isinstance(n, (ast.Try, ast.With)) else [n]
+            for r in roots:
+                for c in [r] + list(walk_local(r)):
+                    if isinstance(c, ast.Call) and (dotted(c.func) or "").endswith("astext"):
+                        x = c.args[0] if c.args else None
+                        if isinstance(x, ast.Name) and x.id in node_vars and cls is not None:
+                            reached.add(cls)
+            if isinstance(n, ast.Assign) and any(isinstance(t, ast.Name) and t.id in node_vars for t in n.targets):
+                v = n.value
+                if isinstance(v, ast.Subscript) and isinstance(v.value, ast.Name) and v.value.id in node_vars and isinstance(v.slice, ast.Constant) and v.slice.value == 0:
+                    new_cls = FIRST_CHILD.get(cls) if cls is not None else None
+                elif any(isinstance(c, ast.Attribute) and c.attr == "ids" for c in ast.walk(v)):
+                    new_cls = start_cls  # (re)binding to the registered target node
+                else:
+                    new_cls = None
+        succs = cfg.succ.get(n, [])
+        if isinstance(n, ast.If):
+            r = ev(n.test, cls)
+            for s_ in succs:
+                if isinstance(s_, tuple) and s_[0] in ("T", "F") and s_[1] is n:
+                    if r is None or (r is True and s_[0] == "T") or (r is False and s_[0] == "F"):
+                        work.append((s_, new_cls))
+                else:
+                    work.append((s_, new_cls))
+        else:
+            for s_ in succs:
+                work.append((s_, new_cls))
+    return reached
+
+
 def _loop_can_continue(cfg, loop: ast.For) -> bool:
     """Is there a path from the start of the loop body back to the loop header that stays inside the body
     (i.e. can a second element ever be examined)?"""
@@ -2651,6 +2754,7 @@ def r6_title_extraction(corpus: Corpus, rep: Report, tier: str):
         raise Unsupported("the target node (document.ids[...]) is not bound to a local in the registry loop")
     region = list(walk_local(rs.explicit_loop))
     cases, problems = _title_cases(fi, node_vars, region)
+    helper_walks: list[tuple[FunctionInfo, set[str]]] = []
     # one level of helper: title = self._title_of(node) / _title_of(node)
     title_elt = rs.explicit_store.value.elts[_registry_writer_positions(corpus, rs)["explicit"]["title"]]
     for e in _closure(fi, title_elt):
@@ -2667,9 +2771,32 @@ def r6_title_extraction(corpus: Corpus, rep: Report, tier: str):
             idx = [i for i, a in enumerate(e.args) if isinstance(a, ast.Name) and a.id in node_vars][0]
             hv = {h.params[idx + shift]} | {t.id for n in h.local_nodes() if isinstance(n, ast.Assign) and isinstance(n.value, ast.Subscript) and isinstance(n.value.value, ast.Name) and n.value.value.id == h.params[idx + shift] for t in n.targets if isinstance(t, ast.Name)}
             c2, p2 = _title_cases(h, hv, list(h.local_nodes()))
+            helper_walks.append((h, hv))
             cases += c2
             problems += p2
             rep.saw_function(h.fq)
+    # list-like targets: where the code tests for a definition list / field list it must be able to walk down to the term / field name
+    walks = [(fi, node_vars, ("T", rs.explicit_loop))] + [(h_, hv_, "ENTRY") for h_, hv_ in helper_walks]
+    for start_cls, leaf in (("definition_list", "term"), ("field_list", "field_name")):
+        mentioned = False
+        got: set[str] = set()
+        for wf, wv, wstart in walks:
+            if any(isinstance(c, ast.Call) and dotted(c.func) == "isinstance" and start_cls in (_node_classes(wf, c.args[1]) or set()) for c in wf.local_nodes() if isinstance(c, ast.Call) and len(c.args) == 2):
+                mentioned = True
+            got |= _title_classes_reached(wf, wv, wstart, start_cls)
+        if not mentioned:
+            continue
+        k = f"{fi.fq}|title of a labelled nodes.{start_cls} is its first nodes.{leaf}"
+        if leaf in got:
+            rep.ok("C09.R6", k, m.site(rs.explicit_store), f"{start_cls} -> {FIRST_CHILD[start_cls]} -> {leaf}")
+        else:
+            rep.violation(
+                "C09.R6",
+                k,
+                m.site(rs.explicit_store),
+                f"the title lookup tests for nodes.{start_cls} but no path walks from it down to its first nodes.{leaf} ({start_cls} -> {FIRST_CHILD[start_cls]} -> {leaf}; classes that reach a title text: "
+                f"{sorted(got) or 'none'}): the two descents `node = node[0]` are no longer both taken, so an empty link to a labelled {start_cls.replace('_', ' ')} shows '#name' instead of the first {leaf.replace('_', ' ')}",
+            )
     if not cases and not problems:
         raise Unsupported("no title extraction (`clean_astext(...)`) found in the registry loop")
     for rel, tcls, ncls, wsite in obligations:
@@ -3614,4 +3741,30 @@ def mutants(corpus: Corpus):
         add("c09-title-text-system-message-step-lost", "C09.R9", base, splice(base.src, sm, "pass"), "nodes.system_message step")
     else:
         out.append(("c09-title-text-system-message-step-lost", "clean_astext has no system_message step on this tree"))
+    # ---- R5: a registry written while the links are resolved ------------------------------------------------------------------------------
+    if s_if is not None:
+        sto = [x for x in rs.refid_stores if any(x is b for b in s_if.body)]
+        key_name = find_node(f, lambda n: isinstance(n, ast.Assign) and isinstance(n.targets[0], ast.Name) and _is_normaliser(f)(n.value) and any(n is b for b in rs.loop.body))
+        if sto and isinstance(sto[0].value, ast.Name) and key_name is not None:
+            kn, idv = key_name.targets[0].id, sto[0].value.id
+            ind = _indent(tr, sto[0])
+            add("c09-slug-hit-memoised-as-explicit", R5, tr, splice(tr.src, sto[0], f"{rs.explicit}[{kn}] = ({idv}, None)\n{ind}{_seg(tr, sto[0])}"), "is not written while links are resolved")
+            add("c09-slug-hit-setdefault-into-explicit", R5, tr, splice(tr.src, sto[0], f"{rs.explicit}.setdefault({kn}, ({idv}, None))\n{ind}{_seg(tr, sto[0])}"), "is not written while links are resolved")
+    miss_store = [x for x in rs.refid_stores if any(x is b for b in rs.loop.body)]
+    if miss_store:
+        ind = _indent(tr, miss_store[0])
+        add("c09-missing-target-remembered-in-slugs", R5, tr, splice(tr.src, miss_store[0], f"{_seg(tr, miss_store[0])}\n{ind}{rs.slugs}[{rs.target}] = (None, {rs.var}[\"refid\"], \"\")"), "is not written while links are resolved")
+    # ---- R6: the walk from a labelled list down to its term / field name ----------------------------------------------------------------------
+    descents = [n for n in walk_local(rs.explicit_loop) if isinstance(n, ast.If) and len(n.body) == 1 and isinstance(n.body[0], ast.Assign) and isinstance(n.body[0].value, ast.Subscript)
+                and isinstance(n.body[0].value.slice, ast.Constant) and n.body[0].value.slice.value == 0 and not n.orelse]
+    descents.sort(key=lambda n: n.lineno)
+    if len(descents) >= 2:
+        d1, d2 = descents[0], descents[1]
+        add("c09-title-walk-second-descent-exclusive", "C09.R6", tr, splice(tr.src, d2, "el" + _seg(tr, d2)), "is its first nodes.")
+        cls2 = find_node(f, lambda n: isinstance(n, ast.Attribute) and n.attr == "definition_list_item" and any(a is d2 for a in _ancestors(n)))
+        if cls2 is not None:
+            add("c09-title-walk-item-class-dropped", "C09.R6", tr, splice(tr.src, cls2, "nodes.field"), "labelled nodes.definition_list")
+        add("c09-title-walk-descends-to-last-child", "C09.R6", tr, splice(tr.src, d2.body[0].value.slice, "-1"), "is its first nodes.")
+    else:
+        out.append(("c09-title-walk-second-descent-exclusive", "the two `node = node[0]` descents were not found in this shape"))
     return out
